@@ -64,7 +64,8 @@ static const char *LENS[] = {"", "hh", "h", "l", "ll", "j", "z", "t", "L"};
 
 void fmt_render(const fcase_t *c, char *out, size_t n) {
     size_t k = 0;
-    int i, j;
+    int i, j, ai = 0;
+    const int positional = (c->argmode & 2) != 0; /* every directive written as %<k>$...: the k-th argument */
 #define EMIT(...) do { if (k < n) k += (size_t)snprintf(out + k, n - k, __VA_ARGS__); } while (0)
     out[0] = 0;
     for (i = 0; i < c->nd; i++) {
@@ -75,7 +76,8 @@ void fmt_render(const fcase_t *c, char *out, size_t n) {
         if (d->conv == 'N') { EMIT("%%%%n"); continue; }
         if (d->conv == '[') { EMIT("%%[x"); continue; } /* printf: an unknown conversion, printed literally by libc */
         EMIT("%%");
-        if (g_fent[c->ent].kind == FK_SCANF) { if (d->suppress) EMIT("*"); }
+        if (positional) EMIT("%d$", ++ai);
+        if (g_fent[c->ent].kind == FK_SCANF) { if (d->suppress && !positional) EMIT("*"); }
         else {
             if (d->flags & 1) EMIT("-");
             if (d->flags & 2) EMIT("+");
@@ -83,8 +85,13 @@ void fmt_render(const fcase_t *c, char *out, size_t n) {
             if (d->flags & 8) EMIT("#");
             if (d->flags & 16) EMIT("0");
         }
+        if (positional) { /* no '*' in positional formats: the drawn star values become literal numbers */
+            if (d->width == -2) { if (d->wstar) EMIT("%d", d->wstar < 0 ? -d->wstar : d->wstar); } else if (d->width >= 0) EMIT("%d", d->width);
+            if (d->prec == -2) { if (d->pstar >= 0) EMIT(".%d", d->pstar); } else if (d->prec >= 0) EMIT(".%d", d->prec);
+        } else {
         if (d->width == -2) EMIT("*"); else if (d->width >= 0) EMIT("%d", d->width);
         if (d->prec == -2) EMIT(".*"); else if (d->prec >= 0) EMIT(".%d", d->prec);
+        }
         if (d->conv == 'C') EMIT("lc");
         else if (d->conv == 'S') EMIT("ls");
         else EMIT("%s%c", LENS[d->len % 9], d->conv);
@@ -198,13 +205,13 @@ void fmt_run(const fcase_t *c, fres_t *x, int want_ref, int guard) {
         const fdir_t *d = &c->d[i];
         if (d->conv == '%' || d->conv == 'N' || d->conv == '[') continue;
         if (e->kind == FK_SCANF) {
-            if (d->suppress) continue;
+            if (d->suppress && !(c->argmode & 2)) continue;
             blk_is_n[nblk] = d->conv == 'n';
             PUSH(ffi_type_pointer, p, g_blocks[nblk]); nblk++;
             continue;
         }
-        if (d->width == -2) PUSH(ffi_type_sint, i, d->wstar);
-        if (d->prec == -2) PUSH(ffi_type_sint, i, d->pstar);
+        if (d->width == -2 && !(c->argmode & 2)) PUSH(ffi_type_sint, i, d->wstar);
+        if (d->prec == -2 && !(c->argmode & 2)) PUSH(ffi_type_sint, i, d->pstar);
         switch (d->conv) {
         case 'd': case 'i': case 'u': case 'x': case 'X': case 'o': {
             long long v = IVALS[d->vsel % NIV];
@@ -219,7 +226,7 @@ void fmt_run(const fcase_t *c, fres_t *x, int want_ref, int guard) {
         case 'C': PUSH(ffi_type_uint, u, WCVALS[d->vsel % NWCV]); break;
         case 's': {
             const char *sv = SVALS[d->vsel % NSV];
-            if (c->argmode) {
+            if (c->argmode & 1) {
                 size_t L = strlen(sv), k2;
                 unsigned char *ab;
                 int pr = d->prec == -2 ? d->pstar : d->prec;
@@ -237,7 +244,7 @@ void fmt_run(const fcase_t *c, fres_t *x, int want_ref, int guard) {
         }
         case 'S': {
             const wchar_t *wv = WSVALS[d->vsel % NWSV];
-            if (c->argmode) {
+            if (c->argmode & 1) {
                 size_t L = wcslen(wv), k2;
                 wchar_t *ab;
                 int pr = d->prec == -2 ? d->pstar : d->prec;
